@@ -1,7 +1,7 @@
 (* Runner.v — the worker's consume loops, concurrency limiter, task accounting and messages_limit.
    Mirrors repid/_runner.py: _run_consumer (one loop per queue: take a message, acquire a slot - pausing the consumer
    around a blocked acquire -, spawn the processing task unless the limit of executions is reached, in which case the
-   message is given back and the loop ends), _task_callback (release the slot, count, decide to stop), max_tasks_hit,
+   message is given back and the loop ends), _task_callback (release the slot, count, stop once the allowed number of executions has been started),
    run_one_queue (a set stop event cancels the loop) - at /repo HEAD (with the fix recorded for C10) - and CPython 3.12's
    asyncio.Semaphore (value + FIFO waiters; release hands the slot to the first waiter at once).
 
@@ -86,7 +86,8 @@ Definition wake_next (s : rstate) : rstate :=
 Definition release (s : rstate) : rstate :=
   wake_next (upd s (value s + 1) (waiters s) (loops s) (tasks s) (started s) (processed s) (stop s) (backlog s) (leaked s)).
 
-(* max_tasks_hit: max_tasks - processed - (limit - value) <= 0 *)
+(* max_tasks_hit: max_tasks - processed - (limit - value) <= 0 (the stop condition of _task_callback before the fix recorded for
+   C10: it counts a slot handed to a loop as an execution under way; since then: limit_reached) *)
 Definition max_tasks_hit (s : rstate) : bool :=
   match maxt s with None => false | Some mx => mx - processed s - (limit s - value s) <=? 0 end.
 
@@ -171,7 +172,7 @@ Definition step_ev (s : rstate) (e : event) : option rstate :=
       | Some ts =>
           let s1 := release (upd s (value s) (waiters s) (loops s) ts (started s) (processed s) (stop s) (backlog s) (leaked s)) in
           let s2 := upd s1 (value s1) (waiters s1) (loops s1) (tasks s1) (started s1) (processed s1 + 1) (stop s1) (backlog s1) (leaked s1) in
-          Some (upd s2 (value s2) (waiters s2) (loops s2) (tasks s2) (started s2) (processed s2) (stop s2 || max_tasks_hit s2) (backlog s2) (leaked s2))
+          Some (upd s2 (value s2) (waiters s2) (loops s2) (tasks s2) (started s2) (processed s2) (stop s2 || limit_reached s2) (backlog s2) (leaked s2))
       | None => None
       end
   | EvStop => Some (upd s (value s) (waiters s) (loops s) (tasks s) (started s) (processed s) true (backlog s) (leaked s))
